@@ -46,6 +46,45 @@ def dispatch_classes(fi, var):
     return out
 
 
+def iteration_filters(root):
+    """(iterable text, [filter condition texts], node) for every comprehension under ``root`` and every for-loop whose
+    body keeps (stores / appends / yields) the element under conditions: `if T: continue` guards and the tests enclosing
+    the keep statement, each reported as its own condition (a `continue` guard is reported as `not (T)`)."""
+    out = []
+    for x in ast.walk(root):
+        if isinstance(x, (ast.ListComp, ast.GeneratorExp, ast.DictComp, ast.SetComp)):
+            for g in x.generators:
+                out.append((ast.unparse(g.iter), [" ".join(ast.unparse(i).split()) for i in g.ifs], x))
+        elif isinstance(x, ast.For):
+            conds = []
+
+            def scan(stmts, guards):
+                for st in stmts:
+                    if isinstance(st, ast.If):
+                        t = " ".join(ast.unparse(st.test).split())
+                        if len(st.body) == 1 and isinstance(st.body[0], ast.Continue) and not st.orelse:
+                            conds.append("not (%s)" % t)
+                            continue
+                        scan(st.body, guards + [t])
+                        scan(st.orelse, guards + ["not (%s)" % t])
+                    elif isinstance(st, (ast.Assign, ast.Expr)) and guards:
+                        keeps = (isinstance(st, ast.Assign) and isinstance(st.targets[0], ast.Subscript)) or (
+                            isinstance(st, ast.Expr) and isinstance(st.value, (ast.Call, ast.Yield)))
+                        if keeps:
+                            for gd in guards:
+                                if gd not in conds:
+                                    conds.append(gd)
+            scan(x.body, [])
+            out.append((ast.unparse(x.iter), conds, x))
+    return out
+
+
+def _only_allowed(cond):
+    import re
+    parts = [p for p in re.split(r"\band\b|\bor\b", cond) if p.strip(" ()not")]
+    return all(any(a in part for a in ALLOWED_FILTERS) for part in parts)
+
+
 def registry_conservation(prog, run, r):
     sites = 0
     for f in prog.all_funcs():
@@ -60,17 +99,24 @@ def registry_conservation(prog, run, r):
             exprs = [tk[0]]
             if isinstance(tk[0], ast.Name):
                 exprs = [n.value for n in own_nodes(f.node) if isinstance(n, ast.Assign) and ast.unparse(n.targets[0]) == tk[0].id]
+            found = []
             for e in exprs:
-                for comp in [x for x in ast.walk(e) if isinstance(x, (ast.ListComp, ast.GeneratorExp))]:
-                    for g in comp.generators:
-                        it = ast.unparse(g.iter)
+                found.extend(iteration_filters(e))
+            if isinstance(tk[0], ast.Name):
+                # the list may also be filled by a loop with append
+                for lp in [n for n in own_nodes(f.node) if isinstance(n, ast.For)]:
+                    if any(isinstance(x, ast.Call) and isinstance(x.func, ast.Attribute) and x.func.attr in ("append", "add")
+                           and isinstance(x.func.value, ast.Name) and x.func.value.id == tk[0].id for x in ast.walk(lp)):
+                        found.extend(t for t in iteration_filters(lp) if t[2] is lp)
+            for it, conds, comp in found:
+                if True:
+                    if True:
                         if not it.endswith(".types.values()"):
                             continue
                         sites += 1
-                        conds = [" ".join(ast.unparse(i).split()) for i in g.ifs]
                         r.instance("%s: Schema(types=...) from `%s` filtered by %s" % (f.qualname, it, conds))
                         for cond in conds:
-                            if not any(a in cond for a in ALLOWED_FILTERS):
+                            if not _only_allowed(cond):
                                 run.report(r, "%s:%s:registry-filter(%s)" % (f.module.name, f.qualname, cond), f.where(comp),
                                            "the types of the existing schema are filtered by `%s` before being handed to the new "
                                            "Schema: a type that is neither selected nor reachable from the roots (e.g. an object type "
@@ -78,16 +124,13 @@ def registry_conservation(prog, run, r):
     # clone/replace path
     sch = prog.get_class("py_gql.schema.schema", "Schema")
     clone = sch.find_method("clone")
-    for comp in [x for x in ast.walk(clone.node) if isinstance(x, ast.DictComp)]:
-        for g in comp.generators:
-            it = ast.unparse(g.iter)
-            if it.endswith(".types.values()"):
-                sites += 1
-                conds = [" ".join(ast.unparse(i).split()) for i in g.ifs]
-                r.instance("Schema.clone copies types from `%s` filtered by %s" % (it, conds))
-                for cond in conds:
-                    if not all(any(a in part for a in ALLOWED_FILTERS) for part in cond.split(" and ")):
-                        run.report(r, "py_gql.schema.schema:Schema.clone:registry-filter(%s)" % cond, clone.where(comp), "clone drops types by `%s`" % cond)
+    for it, conds, node in iteration_filters(clone.node):
+        if it.endswith(".types.values()"):
+            sites += 1
+            r.instance("Schema.clone copies types from `%s` filtered by %s" % (it, conds))
+            for cond in conds:
+                if not _only_allowed(cond):
+                    run.report(r, "py_gql.schema.schema:Schema.clone:registry-filter(%s)" % cond, clone.where(node), "clone drops types by `%s`" % cond)
     return sites
 
 
